@@ -945,9 +945,9 @@ class C16(Prop):
             "specification), its header text by the Lean reader, and the whole file is compared byte for byte with "
             "the Lean rendering (header text, every appended byte, closing text), the appended bytes also by the Lean "
             "byte-level reader; spacings as tuples, lists, NumPy scalars and arrays, extreme spacings, very long and "
-            "non-ASCII names, large images (to 11000 cells), paths given as str; text arrays also in the other byte "
+            "non-ASCII names, large images (to 12100 cells), paths given as str; text arrays also in the other byte "
             "order and as unaligned field views, large images (one line of more than 64 KiB, 6000 values); SESSIONS "
-            "(16 % of the generated cases, 52 targeted): 2 - 8 calls in one fresh process - save, files of another "
+            "(16 % of the generated cases, 47 targeted): 2 - 10 calls in one fresh process - save, files of another "
             "tool, load with delimiter ',' ';' tab or default and name=, vtk.save with other spacings / element sets / "
             "shapes on the same or another path - every load judged against the Lean specification of the file it "
             "reads (half of the text sessions: a load that names its delimiter before a default load), every .vti as "
